@@ -5,5 +5,7 @@ import MtailVerif.Props.C18
 #print axioms MtailVerif.C18.append_delivers_once
 #print axioms MtailVerif.C18.pending_settled_at_poll
 #print axioms MtailVerif.C18.tailer_shape
-#print axioms MtailVerif.C18.dispatch_skeletons
 #print axioms MtailVerif.C18.after_poll_never_dir
+#print axioms MtailVerif.C18.dispatch_skeletons
+#print axioms MtailVerif.C18.f_tailer_tail_skeletons
+#print axioms MtailVerif.C18.f_logstream_logstream_skeletons
